@@ -104,6 +104,9 @@ func init() {
 	})
 }
 
+// reusedEncoder is kept across all cases of a run: every encoding through it follows arbitrary earlier ones.
+var reusedEncoder = ttlv.NewTTLVEncoder()
+
 func wireEncCase(ctx *Ctx, t *tree.Item) {
 	line := "wire.enc " + t.Render()
 	ctx.current = line
@@ -126,6 +129,17 @@ func wireEncCase(ctx *Ctx, t *tree.Item) {
 		}
 	}
 	ctx.Add(line, impl, t.Size() > 1 || t.Kind == tree.KBig, "C01,C03")
+	// the same tree through a REUSED encoder (after other messages and Clear) must give the same bytes
+	if p == "" {
+		reuse, pr := guard("Encoder reuse", func() []byte {
+			reusedEncoder.Clear()
+			toValue(t).EncodeTTLV(&reusedEncoder)
+			return append([]byte{}, reusedEncoder.Bytes()...)
+		})
+		if pr != "" || !bytes.Equal(reuse, got) {
+			ctx.Res.Violate(report.Violation{Property: "C03", Oracle: "reused-encoder", Key: "enc:reused-encoder-differs", Detail: "a reused (cleared) encoder gives " + hexUp(reuse) + " " + pr + " instead of " + hexUp(got), Line: line})
+		}
+	}
 	ctx.Res.Count(fmt.Sprintf("enc.kind=%d", t.Kind))
 	ctx.Res.Count(fmt.Sprintf("enc.depth=%d", min(t.Depth(), 9)))
 }
